@@ -165,6 +165,10 @@ class C10Monitor(Monitor):
             x.flag(f"occupancy parents={len(parents)} active={act} inactive={min(inact, 3)}")
             self.enumerate_filters(tree, plevel, parents, act, mx)
             self.skip_same(tree, plevel, parents, mx)
+        sig2 = ("all-levels", nl, mx, tuple((sum(1 for d in lv if d.is_active), sum(1 for d in lv if d.is_active and d.children)) for lv in tree.levels[:-1]))
+        if sig2 not in C10Monitor.seen:
+            C10Monitor.seen.add(sig2)
+            self.skip_same_all_levels(tree, mx)
 
     def mk(self, problem, fits, offset=0.0):
         return [Individual(np.array([1000.0 + 7.0 * i + offset, -3.0 * i]), problem, float(f)) for i, f in enumerate(fits)]
@@ -292,6 +296,42 @@ class C10Monitor(Monitor):
             x.flag("skipsame " + "+".join(n for n, _ in cand_specs))
 
 
+    def skip_same_all_levels(self, tree, mx):
+        """One SkipSameSprout call with candidates of ALL active non-leaf demes (several levels at once)."""
+        x = self.x
+        nl = len(tree.levels)
+        cands, specs = {}, {}
+        for pl in range(nl - 1):
+            problem = x.w.level_configs[pl].problem
+            for p in tree.levels[pl]:
+                if not p.is_active:
+                    continue
+                own = [np.asarray(c._sprout_seed.genome, dtype=float) for c in p.children if getattr(c, "_sprout_seed", None) is not None]
+                level_seeds = [np.asarray(c._sprout_seed.genome, dtype=float) for d in tree.levels[pl] for c in d.children if getattr(c, "_sprout_seed", None) is not None]
+                sp = [("far", np.full(len(x.w.box), 98765.4321 + pl))]
+                if own:
+                    sp.append(("equal-own", own[0].copy()))
+                inds = [Individual(g, problem, float(i)) for i, (_, g) in enumerate(sp)]
+                cands[p] = DemeCandidates(list(inds), DemeFeatures())
+                specs[p] = (sp, inds, bool(level_seeds))
+        levels_with_own = {p.level for p, (sp, _, _) in specs.items() if len(sp) > 1}
+        if len(cands) < 2:
+            return
+        out = SkipSameSprout()(cands, tree)
+        x.extra_count("C10 filter applications")
+        if len(levels_with_own) >= 2:
+            x.flag("skipsame with parents that already sprouted on two levels")
+        for p, (sp, inds, _) in specs.items():
+            kept = out[p].individuals if p in out else []
+            self.subset(kept, inds, "SkipSameSprout")
+            for (name, g), ind in zip(sp, inds):
+                isin = any(ind is k for k in kept)
+                if name == "far" and not isin:
+                    x.violate("C10/skipsame-rejected-new", f"SkipSameSprout (all parents at once) rejected a candidate of {p.id} that differs from every existing seed")
+                if name == "equal-own" and isin:
+                    x.violate("C10/skipsame-let-through-own", f"SkipSameSprout (all parents at once) let through a candidate equal to a seed already sprouted from the same parent {p.id} (level {p.level})")
+
+
 class C10MonitorT(C10Monitor):
     NMAX = 5
 
@@ -314,6 +354,12 @@ def units(tier, seed):
             sk = ("simple", "nbc", "nbclocal")[k % 3] if len(eng) == 3 else ("simple", "nbc")[k % 2]
             descs.append(dict(engines=list(eng), gens=1, maximize=mx, Mh=4, seed=s, sprout={"kind": sk, "L": 1 + k % 3},
                               lsc=[None] + [{"kind": "metaepoch", "m": 1 + k % 2}] * (len(eng) - 1), obj=("twofunnel", "plateau")[k % 2]))
+    # long-lived intermediate demes: parents that have already sprouted exist on two levels in the same round
+    for k, eng in enumerate([("DE", "SEA", "DE"), ("SEA", "DE", "CMAf"), ("SHADE", "GA", "LOC"), ("LHS", "DEd", "SOB"), ("SEAX", "CMAw", "SEA"), ("STUB", "STUBEA", "DE")]):
+        for mx in (False, True):
+            for sp in ({"kind": "scripted", "L": 3, "default": 1}, {"kind": "simple", "L": 3}, {"kind": "nbc", "L": 3}):
+                descs.append(dict(engines=list(eng), gens=1, maximize=mx, Mh=5, seed=s + k, sprout=sp, lsc=[None, None, {"kind": "metaepoch", "m": 1 + k % 2}],
+                                  obj=("twofunnel", "sphere_in")[k % 2], choices="S" if sp["kind"] == "scripted" else ""))
     us += [{"kind": "run", "descs": c, "tier": tier} for c in chunks(descs, 10)]
     return us
 
@@ -336,6 +382,8 @@ def finish(res, tier):
         raise Vacuous("no round with several parents")
     if not any(f.startswith("skipsame") and "equal-own" in f for f in res.flags):
         raise Vacuous("SkipSameSprout never exercised with an existing seed")
+    if res.flags["skipsame with parents that already sprouted on two levels"] < 3:
+        raise Vacuous("SkipSameSprout never exercised with sprouted parents on two levels in one call")
     if res.configs_completed < res.configs:
         raise Vacuous(f"{res.configs - res.configs_completed} configurations without any completed execution")
     return {"filter_applications": res.extra["C10 filter applications"], "generator_calls": res.extra["C10 generator calls"], "occupancies": sorted(occ)}
